@@ -405,7 +405,7 @@ func (g *gen) svgMarkup(inline bool) string {
 	b.WriteString(">")
 	n := r.Range(0, 5)
 	for i := 0; i < n; i++ {
-		switch r.Intn(14) {
+		switch r.Intn(16) {
 		case 0:
 			fmt.Fprintf(&b, "<rect x=\"%d\" y=\"%d\" width=\"%s\" height=\"%s\" fill=\"%s\" rx=\"%s\"/>", r.Range(-5, 20), r.Range(-5, 20), pick(r, []string{"5", "0", "-3", "50%", "x"}), pick(r, []string{"5", "0", "10", "1e3"}), pick(r, []string{"red", "none", "url(#g)", "url(#nope)", "currentColor", "#abc"}), pick(r, []string{"0", "2", "-1", "100"}))
 		case 1:
@@ -430,6 +430,8 @@ func (g *gen) svgMarkup(inline bool) string {
 			fmt.Fprintf(&b, "<clipPath id=\"c\"><rect width=\"5\" height=\"5\"/></clipPath><rect width=\"9\" height=\"9\" clip-path=\"url(#c)\" mask=\"url(#k)\" filter=\"url(#f)\"/><mask id=\"k\"><rect width=\"2\" height=\"2\" fill=\"white\"/></mask><filter id=\"f\"><feOffset dx=\"1\"/><feBlend mode=\"multiply\"/></filter>")
 		case 11:
 			fmt.Fprintf(&b, "<pattern id=\"p\" width=\"%s\" height=\"2\" patternUnits=\"userSpaceOnUse\"><rect width=\"1\" height=\"1\"/></pattern><rect width=\"8\" height=\"8\" fill=\"url(#p)\"/>", pick(r, []string{"2", "0", "-1", "50%"}))
+		case 14:
+			b.WriteString(hrefGraph(r))
 		case 12:
 			fmt.Fprintf(&b, "<image href=\"data:image/png;base64,%s\" width=\"5\" height=\"5\"/><svg viewBox=\"0 0 2 2\" width=\"4\"><line x2=\"2\" y2=\"2\" stroke=\"red\"/></svg>", base64.StdEncoding.EncodeToString(pngBytes(2, 2)))
 		default:
@@ -442,6 +444,48 @@ func (g *gen) svgMarkup(inline bool) string {
 		return b.String() // truncated
 	}
 	b.WriteString("</svg>")
+	return b.String()
+}
+
+// hrefGraph: gradients / patterns inheriting from one another through href or xlink:href: chains,
+// chains to a missing id, self references, 2- and 3-cycles; used or not by a shape.
+func hrefGraph(r *rng.R) string {
+	kinds := []string{"linearGradient", "radialGradient", "pattern"}
+	ids := []string{"ga", "gb", "gc", "gd"}
+	n := r.Range(1, 4)
+	var b strings.Builder
+	for i := 0; i < n; i++ {
+		var target string
+		switch r.Intn(6) {
+		case 0:
+			target = ids[i] // self reference
+		case 1:
+			target = "missing"
+		case 2:
+			target = ids[(i+n-1)%n] // back edge
+		default:
+			target = ids[(i+1)%n] // next (closes a cycle on the last one)
+		}
+		if i == n-1 && r.P(1, 2) {
+			target = "" // open chain
+		}
+		k := pick(r, kinds)
+		fmt.Fprintf(&b, "<%s id=\"%s\"", k, ids[i])
+		if target != "" {
+			fmt.Fprintf(&b, " %s=\"#%s\"", pick(r, []string{"href", "xlink:href", "href"}), target)
+		}
+		if k == "pattern" {
+			b.WriteString(" width=\"4\" height=\"4\"")
+		}
+		if r.P(1, 2) {
+			fmt.Fprintf(&b, "><stop offset=\"0\" stop-color=\"red\"/><rect width=\"2\" height=\"2\"/></%s>", k)
+		} else {
+			b.WriteString("/>")
+		}
+	}
+	if r.P(2, 3) {
+		fmt.Fprintf(&b, "<rect width=\"8\" height=\"8\" fill=\"url(#%s)\" stroke=\"url(#%s)\"/>", pick(r, ids[:n]), pick(r, ids))
+	}
 	return b.String()
 }
 
@@ -832,6 +876,9 @@ func (g *gen) node(depth, budget int) (*Node, int) {
 	if tag == "svg" {
 		return &Node{Tag: "#raw", Text: g.svgMarkup(true)}, budget - 1
 	}
+	if r.P(1, 30) {
+		return g.floatTrap(), budget - 3
+	}
 	n := &Node{Tag: tag}
 	g.attrs(n)
 	g.style(n, 4)
@@ -889,6 +936,42 @@ func (g *gen) node(depth, budget int) (*Node, int) {
 		n.Kids = append(n.Kids, kid)
 	}
 	return n, budget
+}
+
+// floatTrap: a narrow container holding an empty float that has a width but no height (a spacer),
+// followed at the same vertical position by something too wide for the room left beside it: a
+// wide float, a long word, a table or an image.
+func (g *gen) floatTrap() *Node {
+	r := g.r
+	w := pick(r, []string{"60px", "100px", "150px", "40px", "10em"})
+	side := pick(r, []string{"left", "right"})
+	box := &Node{Tag: "div", Style: []Decl{{Name: "width", Value: w}}}
+	if r.P(1, 3) {
+		box.Style = append(box.Style, Decl{Name: "position", Value: "relative"})
+	}
+	spacer := &Node{Tag: "div", Style: []Decl{{Name: "float", Value: side}, {Name: "width", Value: pick(r, []string{"60px", "30px", "100%", "50%", "1px", "0"})}}}
+	if r.P(1, 5) {
+		spacer.Style = append(spacer.Style, Decl{Name: "height", Value: pick(r, []string{"0", "-5px", "1px"})})
+	}
+	if r.P(1, 6) {
+		spacer.Style = append(spacer.Style, Decl{Name: "margin", Value: pick(r, []string{"0", "-5px", "0 0 -10px"})})
+	}
+	box.Kids = append(box.Kids, spacer)
+	if r.P(1, 4) {
+		box.Kids = append(box.Kids, cloneNode(spacer))
+	}
+	switch r.Intn(5) {
+	case 0, 1:
+		box.Kids = append(box.Kids, &Node{Tag: "div", Style: []Decl{{Name: "float", Value: pick(r, []string{"left", "right", side})}, {Name: "height", Value: "10px"}, {Name: "width", Value: pick(r, []string{"auto", "100%", "200px", "90%"})}}, Kids: []*Node{{Text: "wide float content here"}}})
+	case 2:
+		box.Kids = append(box.Kids, &Node{Tag: "span", Kids: []*Node{{Text: strings.Repeat("abcdefgh", r.Range(1, 6))}}})
+	case 3:
+		box.Kids = append(box.Kids, &Node{Tag: "table", Kids: []*Node{{Tag: "tr", Kids: []*Node{{Tag: "td", Style: []Decl{{Name: "width", Value: "300px"}}, Kids: []*Node{{Text: "cell"}}}}}}})
+	default:
+		box.Kids = append(box.Kids, &Node{Tag: "img", Attrs: []Attr{{K: "src", V: g.imageURL()}, {K: "width", V: "300"}, {K: "height", V: "10"}}})
+	}
+	box.Kids = append(box.Kids, &Node{Tag: "p", Kids: []*Node{{Text: "ab"}}})
+	return box
 }
 
 func (g *gen) table(t *Node, depth, budget int) int {
